@@ -2,6 +2,7 @@ package limitlab
 
 import (
 	"encoding/binary"
+	"errors"
 	"fmt"
 	"sync"
 	"time"
@@ -58,21 +59,30 @@ type GateCM struct {
 	*chain.Manager
 	G *Gate
 
-	mu        sync.Mutex
-	perPeer   int
-	perSubnet int // <= 0: disabled
-	subnetOf  map[uint32]string
-	curPeer   map[uint32]int
-	curSubnet map[string]int
-	maxPeer   int
-	maxSubnet int
-	entered   map[Tag]struct{}
-	excess    []Excess
-	jitter    func() time.Duration
-	parkPlain map[string]bool // untagged methods that park on the gate as well
-	hookTime  time.Duration   // tagged calls take this long once the gate lets them pass (slow manager)
-	maxHook   time.Duration   // longest time a tagged call really spent sleeping
-	order     []Tag           // tags in the order their handlers entered
+	mu          sync.Mutex
+	perPeer     int
+	perSubnet   int // <= 0: disabled
+	subnetOf    map[uint32]string
+	curPeer     map[uint32]int
+	curSubnet   map[string]int
+	maxPeer     int
+	maxSubnet   int
+	entered     map[Tag]struct{}
+	excess      []Excess
+	jitter      func() time.Duration
+	parkPlain   map[string]bool // untagged methods that park on the gate as well
+	hookTime    time.Duration   // tagged calls take this long once the gate lets them pass (slow manager)
+	maxHook     time.Duration   // longest time a tagged call really spent sleeping
+	order       []Tag           // tags in the order their handlers entered
+	failHistory bool            // History returns an error (fatal for the sync loop)
+}
+
+// FailHistory makes History return an error from now on: the sync loop, and
+// with it Run, gives up.
+func (g *GateCM) FailHistory() {
+	g.mu.Lock()
+	g.failHistory = true
+	g.mu.Unlock()
 }
 
 var _ syncer.ChainManager = (*GateCM)(nil)
@@ -286,6 +296,12 @@ func (g *GateCM) Block(id types.BlockID) (types.Block, bool) {
 // History implements syncer.ChainManager.
 func (g *GateCM) History() ([32]types.BlockID, error) {
 	defer g.plain("History")()
+	g.mu.Lock()
+	fail := g.failHistory
+	g.mu.Unlock()
+	if fail {
+		return [32]types.BlockID{}, errors.New("limitlab: history unavailable")
+	}
 	return g.Manager.History()
 }
 
